@@ -20,6 +20,7 @@ type recCreds struct {
 	minVersion   int64
 	clientCAs    *recPool
 	certificates int
+	weakening    []string // tls.Config settings that can weaken client authentication
 }
 
 type recServer struct {
@@ -105,7 +106,33 @@ func addGRPCModel(P *Program) {
 		if certs, ok := structField(cfg, ct, "Certificates").([]value); ok {
 			c.certificates = len(certs)
 		}
+		// settings that can let a peer in without a certificate verified against ClientCAs
+		st := ct.Underlying().(*types.Struct)
+		for k := 0; k < st.NumFields(); k++ {
+			name := st.Field(k).Name()
+			switch name {
+			case "InsecureSkipVerify", "GetConfigForClient", "Time", "Rand", "KeyLogWriter", "SessionTicketKey":
+				if !isZeroish(cfg.(structure)[k]) {
+					c.weakening = append(c.weakening, name)
+				}
+			}
+		}
+		if keys, ok := i.side[cp]; ok && keys.(int) > 0 {
+			c.weakening = append(c.weakening, "SetSessionTicketKeys")
+		}
 		return iface{t: noopType, v: nativeHandle{c}}
+	}
+	h["(*crypto/tls.Config).SetSessionTicketKeys"] = func(i *interpreter, fr *frame, fn *ssa.Function, args []value) value {
+		cp := args[0].(*value)
+		if cp == nil {
+			panic(runtimeErrorString("runtime error: invalid memory address or nil pointer dereference"))
+		}
+		keys, _ := args[1].([]value)
+		if len(keys) == 0 {
+			panic(targetPanic{iface{t: types.Typ[types.String], v: "tls: keys must have at least one key"}})
+		}
+		i.side[cp] = len(keys)
+		return nil
 	}
 	opt := func(o *recOption) value { return iface{t: noopType, v: nativeHandle{o}} }
 	h["google.golang.org/grpc.Creds"] = func(i *interpreter, fr *frame, fn *ssa.Function, args []value) value {
@@ -240,6 +267,8 @@ func addGRPCModel(P *Program) {
 			return fmt.Sprint(s.creds.minVersion)
 		case "certificates":
 			return fmt.Sprint(s.creds.certificates)
+		case "weakening":
+			return strings.Join(s.creds.weakening, ",")
 		case "clientcas":
 			if s.creds.clientCAs == nil {
 				return "nil"
@@ -252,4 +281,49 @@ func addGRPCModel(P *Program) {
 		}
 		return ""
 	}
+}
+
+// isZeroish: the zero value of a field (false, 0, nil function/interface/pointer/slice, all-zero array).
+func isZeroish(v value) bool {
+	switch x := v.(type) {
+	case nil:
+		return true
+	case bool:
+		return !x
+	case iface:
+		return x.t == nil
+	case *value:
+		return x == nil
+	case *ssa.Function:
+		return x == nil
+	case *closure:
+		return x == nil
+	case *nativeFunc:
+		return x == nil
+	case []value:
+		return x == nil
+	case array:
+		for _, e := range x {
+			if !isZeroish(e) {
+				return false
+			}
+		}
+		return true
+	case structure:
+		for _, e := range x {
+			if !isZeroish(e) {
+				return false
+			}
+		}
+		return true
+	case byte:
+		return x == 0
+	}
+	if n, ok := v.(int64); ok {
+		return n == 0
+	}
+	if _, t, ok := intTerm(v); ok && t != nil {
+		return t.op == "const" && t.val == 0
+	}
+	return false
 }
